@@ -496,3 +496,59 @@ def replay_link_discard(items):
                         {"short": {"stack": stack, "missing_siblings": missing,
                                    "scenario": "real walk (ReadFile): links to a directory discarded as trees"}}))
     return out
+
+
+# ---------------------------------------------------------------------------------------------
+# the glob walker's own pruning: directories whose component cannot match are never read
+# ---------------------------------------------------------------------------------------------
+
+OBS_TREE = ["b/", "b/pp/", "b/pp/1/", "b/pp/1/2/", "b/pp/1/2/x", "b/pp/y", "b/q/", "b/q/1/", "b/q/1/z", "b/q/dd/",
+            "b/q/dd/e", "b/q/dd/f/", "b/q/dd/f/g", "b/q/v", "b/w"]
+
+
+def _observe_battery():
+    """A downstream filter_entry logs what it observes; nothing beneath a directory that fails its
+    component program (`pp` and `dd` fail `?`) may be observed (rooted, unrooted and `..` globs)."""
+    from core import probe
+    cases = [("b", "?/*/*", "plain"), ("b", "?/**", "plain"), ("b", "q/?/*", "plain"),
+             ("c", "{ROOT}/b/?/*/*", "rooted"), ("c", "{ROOT}/b/?/**", "rooted"),
+             ("c", "{ROOT}/b/q/?/*", "rooted"), ("b", "../b/?/*", "parent")]
+    rows = probe([{"op": "walk", "tree": OBS_TREE + ["c/"], "base": b, "glob": g,
+                   "stack": [{"filter": {"tree": [], "file": []}}]} for b, g, _ in cases])
+    bad = []
+    for (base, glob, kind), row in zip(cases, rows):
+        if not row or not row.get("ok"):
+            bad.append({"base": base, "glob": glob, "kind": kind, "error": str(row)[:200]})
+            continue
+        observed = row["observed"][0]
+        forbidden = "/dd/" if "q/?" in glob else "/pp/"
+        leaked = sorted(o for o in observed if forbidden in ("/" + o))
+        if leaked:
+            bad.append({"base": base, "glob": glob, "kind": kind, "observed_beneath_discarded_directory": leaked})
+    return len(cases), bad
+
+
+def _observe_results(kinds):
+    n, bad = _observe_battery()
+    out = []
+    for b in bad:
+        if b["kind"] not in kinds:
+            continue
+        out.append(({"pruned-directory-was-read"},
+                    {"short": dict(b, scenario="real glob walk with a logging filter_entry downstream"), "battery": n}))
+    return out
+
+
+_old_closure, _old_rooted, _old_parent = replay_closure, replay_closure_rooted, replay_closure_parent
+
+
+def replay_closure(items):
+    return _old_closure(items) + _observe_results({"plain"})
+
+
+def replay_closure_rooted(items):
+    return _old_rooted(items) + _observe_results({"rooted", "plain"})
+
+
+def replay_closure_parent(items):
+    return _old_parent(items) + _observe_results({"parent", "plain"})
